@@ -18,6 +18,50 @@ CHECKS = {
              'dependency relation from the generator; histories keep the used area of sheets under unbounded '
              'references fixed (the growth case is a directed known finding)',
         design='DESIGN.md section 5 C01'),
+    'C04': dict(
+        technique='runtime monitoring: online trace containment over per-formula read events (repo hook H1) against '
+                  'declared precedents and the live dependency graph; quiescent graph invariants; differential '
+                  'influence test',
+        level='exploration',
+        text='Every read a formula makes while evaluating is attributed to that formula by the hook and checked at '
+             'the moment of the read against needed_addresses and the graph predecessors (cell-level containment); '
+             'after evaluation every declared precedent must have its edge and the ancestors must contain the '
+             'generator\'s ground-truth influencers; perturbing an input in a fresh compile may only change '
+             'formulas that have it as a graph ancestor. Held on the workbooks and value environments generated.',
+        note='hook H1 wraps _C_/_R_ per formula; computed references (OFFSET/INDIRECT) are outside the statement',
+        design='DESIGN.md section 5 C04'),
+    'C05': dict(
+        technique='runtime monitoring: differential observation of one cell over all first-evaluation orders and '
+                  'all access paths of the real ExcelCompiler.evaluate',
+        level='exploration',
+        text='All n! first-evaluation orders for workbooks of up to 6 addresses (sampled beyond), then every access '
+             'path (cell, repeat, enclosing rectangles, unbounded column/row forms, list/tuple/generator, sheet-less '
+             'address), each also as the first access of a fresh model; all observations of a cell must agree '
+             'type-strictly.',
+        note='reference values are pycel\'s own raster-order evaluation',
+        design='DESIGN.md section 5 C05'),
+    'C06': dict(
+        technique='runtime monitoring: iteration-pass events (hook H3), recording _CycleCell.value setter and a '
+                  'counting plugin inside the cycle, checked against pass bound, last-pass movement and the numpy '
+                  'fixed point; lock-step twin histories plain vs iterative',
+        level='exploration',
+        text='Contracting circular systems with a known fixed point under all (iterations, tolerance) settings '
+             'requested through every channel pycel honours, every cell as first target; acyclic workbooks in lock '
+             'step with their non-iterative twin along set_value histories. Liveness is restated as the bound '
+             '"at most the requested passes".',
+        note='true fixed point from numpy.linalg.solve; the monitor keeps its own per-pass record of cell values',
+        design='DESIGN.md section 5 C06'),
+    'C07': dict(
+        technique='runtime monitoring under controlled scheduling: two OS threads driven through preemption points '
+                  '(hooks H2/H3) by a baton scheduler following enumerated plans, plus stress with switch interval '
+                  '1e-6 and sys.monitoring yield injection, plus fresh-thread first calls; oracle = solo run',
+        level='exploration',
+        text='No race detector exists for CPython code, so interleavings are produced deliberately: plans park both '
+             'threads mid-evaluation at cell-evaluation granularity (the second workload to completion or to its k-th '
+             'point inside the j-th point of the first). Each thread must return exactly its solo results and pass '
+             'counts. Distinct interleavings observed are counted from the recorded (thread, event, cell) trace.',
+        note='granularity below a cell evaluation is only reached by the randomised stress part',
+        design='DESIGN.md section 5 C07, section 9 experiment 1'),
 }
 
 NOT_YET = {}
